@@ -597,6 +597,39 @@ pub fn run_c10(ctx: &Ctx) -> Outcome {
     let mut p = Profile::full();
     p.rate = RateMode::Wild;
     drive(ctx, &mut out, 1, &p, ctx.n(60_000, 2_000_000), Want::default(), judge_c10, None);
+    // the same property through the command-line tool (single-file and batch mode): the flags must reach
+    // the generator they belong to
+    if !out.failed() {
+        match crate::props::frontends::build_cli(ctx) {
+            Err(e) => out.inconclusive = Some(e),
+            Ok(cli) => {
+                let n = ctx.n(160, 2400) as usize;
+                let items: Vec<(usize, crate::props::frontends::CliCase)> = crate::props::frontends::materialise(&crate::props::frontends::cli_strategy(false), ctx.seed, 101, n)
+                    .into_iter()
+                    .map(|mut c| {
+                        // protocols where the opcodes exist, so that a wrongly forwarded flag shows
+                        if c.protocol.map_or(true, |p| p < 2) {
+                            c.protocol = Some(5);
+                        }
+                        if let crate::props::frontends::Mode::Batch { fault_at, .. } = &mut c.mode {
+                            *fault_at = None;
+                        }
+                        c
+                    })
+                    .enumerate()
+                    .collect();
+                let (st, found) = crate::runner::run_enum(items, |(i, c), st| crate::props::frontends::check_cli_flags(ctx, &cli, c, *i, st));
+                out.stats.merge(st);
+                if let Some(((_, c), f)) = found {
+                    if f.sig.starts_with("harness:") {
+                        out.inconclusive = Some(f.msg);
+                    } else {
+                        out.violation = Some(Violation { fail: f, case: json!({"cli_case": c}) });
+                    }
+                }
+            }
+        }
+    }
     history_shards(ctx, &mut out, ctx.n(3_000, 60_000));
     out
 }
